@@ -21,7 +21,8 @@ EXPLANATION = (
     "(for in-range e) are then checked as identity provenance maps. Also proved: the name-based dispatch is "
     "exhaustive over {1,2,4}x{big,little} with the right signatures, the four ValueError guards dominate the kernel "
     "call in both wrappers, the None and caller-supplied buffer paths reach the same kernel call, and the SIGPROC "
-    "reader/writer take the bit order from the single default_bitorder table (1-bit little, 2/4-bit big)."
+    "reader/writer take the bit order from the single default_bitorder table (1-bit little, 2/4-bit big). "
+    "Since F32/F33, R4 also requires: the bit-order guard compares the whole string with a literal set, pack runs only on a whole number of bytes, a supplied buffer is checked to be uint8, and the element count is computed from int(nbits)."
 )
 KMOD = "sigpyproc.core.kernels"
 BMOD = "sigpyproc.io.bits"
